@@ -3,6 +3,7 @@ C13 — Block emission is non-increasing, non-negative and fully distributed.
 -/
 import Canine.Mint.Model
 import Canine.Generated.PureFns
+import Canine.Generated.KeyFacts
 namespace Canine.Mint
 
 theorem chopRoundNat_nonneg (x : Int) (h : 0 ≤ x) : 0 ≤ chopRoundNat x := by
@@ -292,5 +293,20 @@ theorem C13_generated_shares_are_the_model (ratio m : Int) (denom : String) :
     Generated.Pure.mintDevGrants_inputs = ["params.DevGrantsRatio"] ∧
     Generated.Pure.mintStorageProviderStipend_inputs = ["params.StorageProviderRatio"] :=
   ⟨rfl, rfl, rfl, rfl, rfl, rfl⟩
+
+/-! ## The parameter table as it stands in the source (regenerated fact) -/
+
+/-- Which store key of the `jklmint` parameter subspace is bound to which field: the configured
+percentages of C13 are the ones governance sets by key. -/
+def C13_expectedParamPairs : List (String × String × String) := [
+  ("KeyMintDenom", "&p.MintDenom", "validateMintDenom"),
+  ("KeyTokensPerBlock", "&p.TokensPerBlock", "validateInt64"),
+  ("KeyDevGrants", "&p.DevGrantsRatio", "validateInt64"),
+  ("KeyMintIncrease", "&p.MintDecrease", "validateInt64"),
+  ("KeyStakerRatio", "&p.StakerRatio", "validateInt64"),
+  ("KeyStorageStipend", "&p.StorageStipendAddress", "validateStipend"),
+  ("KeyProviderRatio", "&p.StorageProviderRatio", "validateInt64")]
+
+theorem C13_param_keys_as_modelled : Generated.paramPairs_jklmint = C13_expectedParamPairs := by decide
 
 end Canine.Mint
